@@ -144,7 +144,8 @@ PROPS = {
         "technique": "kind propagation, format-template decoding, sign-parity rule",
     },
     "C07": {
-        "rules": [r_scorer.run, kind_scope("connector", "scorer", "builder"), r_panic.run_narrow_connector],
+        "rules": [r_scorer.run, kind_scope("connector", "scorer", "builder"), r_panic.run_narrow_connector,
+                  r_codec.derived_caches],
         "explanation": "SCORERCHK: in the portable build costs[pos] is read only on the true edge "
                        "of checks[pos] == key1 at pos = bases[key1] ^ key2; in the AVX2 build the "
                        "cost gather is masked by cmpeq(check, key1) AND the position-validity "
@@ -220,7 +221,7 @@ PROPS = {
     "C02": {
         "rules": [r_viterbi.viterbi, r_viterbi.traceback, r_panic.run_narrow_lattice,
                   kind_scope("tokenizer", "connector", "lexicon::param", "unknown"),
-                  r_reset.run_tokens, r_panic.run_costsum, r_map.run_compose],
+                  r_reset.run_tokens, r_panic.run_costsum, r_map.run_compose, r_codec.derived_caches],
         "explanation": "VITERBI: insert_node/insert_eos take (argmin, min) from one search over "
                        "the complete predecessor list of the very start_node they store, with "
                        "cost(pred.right_id, own left_id), min_cost = best + word_cost, EOS "
@@ -267,7 +268,7 @@ PROPS = {
     },
     "XKIND": {"rules": [r_kind.run_all], "explanation": "debug: KIND only", "level_text": "", "level_note": "", "technique": ""},
     "C05": {
-        "rules": [r_codec.run_c05],
+        "rules": [r_codec.run_c05, r_codec.derived_caches],
         "explanation": "CODEC: for every hand-written bincode codec reachable from the dictionary "
                        "image the ordered (wire type, field) sequence of the encoder equals that "
                        "of the decoder, in the portable and the AVX2 build, and BorrowDecode "
@@ -287,7 +288,7 @@ PROPS = {
                      "sequences), cfg-twin comparison, type-closure walk",
     },
     "C09": {
-        "rules": [r_codec.run_c09],
+        "rules": [r_codec.run_c09, r_codec.derived_caches],
         "explanation": "MAGIC: in Dictionary::read_common the decode call is dominated by the "
                        "equal-branch of a comparison between the read_exact buffer and the magic "
                        "constant the writer emits; mismatch reaches only Err. ERRPROP: every "
@@ -395,6 +396,10 @@ _ADDED = {
             "the prefix loop tests): the prefix of run length is skipped on every path with "
             "group()=true - also when the over-long run was omitted - and on no path with "
             "group()=false.", "path-sensitive flag/branch correlation"),
+    "C05": ("CODEC-DERIVED: a recomputed cache field (`bases_len`, `checks_len` of the AVX2 "
+            "scorer) is derived from the length of its own table in the decoder, the builder and "
+            "Default.", "cfg-twin provenance rule"),
+    "C09": ("CODEC-DERIVED as for C05.", "cfg-twin provenance rule"),
     "C06": ("ROWRANGE: every slice a RawConnector method takes from a U31x8 feature table is "
             "aligned to rows of feat_template_size vectors ([k*w..(k+1)*w], k*w.., chunks of w).",
             "symbolic index-range shape rule"),
